@@ -606,7 +606,15 @@ func checkErrorsFailTheMessage(r *Run, rule string, fns []*ssa.Function, why str
 			if strings.HasSuffix(ci.Recv, "Keeper") || strings.HasSuffix(ci.Recv, "keeper") || strings.Contains(ci.PkgPath, "/keeper") {
 				stateful = true
 			}
-			if !stateful {
+			// a step that can change or read chain state takes a Context; predicates and setters of in-memory objects
+			// (utils.IsContractAccount, EthAccount.SetCodeHash) do not
+			hasCtx := false
+			for _, a := range ci.Instr.Common().Args {
+				if namedName(a.Type()) == "Context" {
+					hasCtx = true
+				}
+			}
+			if !stateful || !hasCtx {
 				return
 			}
 			n++
